@@ -66,7 +66,33 @@ def snake_upper(cls):
     return re.sub(r"(?<=[a-z0-9])(?=[A-Z])", "_", cls).upper()
 
 
+
+def xml_norm(c):
+    """The XML text layer has no empty string: the four optional strings of a DataSpecificationIEC61360 come back as None
+    when they are "" (property C04's input space excludes them for the same reason).  Applied to the expected value of the
+    FULL XML reads only, which are made here for their interaction with the stripped reads, not for C04's sake."""
+    if isinstance(c, list):
+        return [xml_norm(x) for x in c]
+    if isinstance(c, dict):
+        out = {k: xml_norm(v) for k, v in c.items()}
+        if c.get("_class") == "DataSpecificationIEC61360":
+            for a in ("unit", "source_of_definition", "symbol", "value_format"):
+                if out.get(a) == "":
+                    out[a] = None
+        return out
+    return c
+
+
 def run(chk):
+    import logging
+    logging.disable(logging.WARNING)   # the readers warn about every reference whose last key type is not its Python type
+    try:
+        return _run(chk)
+    finally:
+        logging.disable(logging.NOTSET)
+
+
+def _run(chk):
     rng = chk.rng
     quick = chk.tier == "quick"
     n_obj, n_store = (220, 60) if quick else (2500, 800)
@@ -115,16 +141,21 @@ def run(chk):
             from lxml import etree
             xml_bytes = etree.tostring(object_to_xml_element(obj))
             construct = getattr(XMLConstructables, snake_upper(cls))
-            for fs_ in (True, False):
+            # full and stripped reads share one process (module-level tables, caches): both orders occur
+            modes = [(fs_, st_) for st_ in ((False, True) if i % 2 == 0 else (True, False)) for fs_ in (True, False)]
+            for fs_, st_ in modes:
                 try:
-                    o3 = read_aas_xml_element(io.BytesIO(xml_bytes), construct, failsafe=fs_, stripped=True)
-                    d = aasgen.diff(strip_canon(c03.strip_type(aasgen.canon(obj))), c03.strip_type(aasgen.canon(o3)))
+                    o3 = read_aas_xml_element(io.BytesIO(xml_bytes), construct, failsafe=fs_, stripped=st_)
+                    want_c = c03.strip_type(aasgen.canon(obj))
+                    d = aasgen.diff(strip_canon(want_c) if st_ else xml_norm(want_c), c03.strip_type(aasgen.canon(o3)))
                 except Exception as e:
                     d = f"/: raised {type(e).__name__}: {str(e)[:120]}"
+                chk.count(f"xml-element-reader:{'stripped' if st_ else 'full'}")
                 if d:
-                    chk.fail(sig("xml-element-reader", d),
-                             f"stripped XML element reader ({'failsafe' if fs_ else 'strict'}) on a {cls}: {d}",
-                             {"class": cls, "xml": xml_bytes.decode()[:4000]})
+                    chk.fail(sig("xml-element-reader" if st_ else "xml-element-full-reader", d),
+                             f"{'stripped' if st_ else 'full'} XML element reader ({'failsafe' if fs_ else 'strict'}) on a {cls}, "
+                             f"reads in the order {modes}: {d}",
+                             {"class": cls, "xml": xml_bytes.decode()[:4000], "order": modes})
             t, _ = c03.coq_case(obj, True)
             enc_terms.append(t)
             falsy = set()
@@ -153,7 +184,27 @@ def run(chk):
         b = io.BytesIO()
         write_aas_xml_file(b, store)
         docs[("xml", False)] = b.getvalue()
+        want_full = c03.strip_type(aasgen.canon_store(store))
         for (fmt, st), text in docs.items():
+            # a full read of the same document before (even stores) or after (odd stores) the stripped reads: the two kinds
+            # of reader live in one process and must not influence each other
+            def full_read():
+                if st:
+                    return
+                for failsafe in (True, False):
+                    try:
+                        got = (read_aas_json_file(io.StringIO(text), failsafe=failsafe) if fmt == "json"
+                               else read_aas_xml_file(io.BytesIO(text), failsafe=failsafe))
+                        d = aasgen.diff(xml_norm(want_full) if fmt == "xml" else want_full, c03.strip_type(aasgen.canon_store(got)))
+                    except Exception as e:
+                        d = f"/: raised {type(e).__name__}: {str(e)[:120]}"
+                    chk.count(f"full-reader:{fmt}")
+                    if d:
+                        chk.fail(sig(f"{fmt}-full-reader", d),
+                                 f"full {fmt} reader ({'failsafe' if failsafe else 'strict'}) in a process that also reads "
+                                 f"stripped: {d}", {"format": fmt, "document": text[:4000], "full_first": i % 2 == 0})
+            if i % 2 == 0:
+                full_read()
             for failsafe in (True, False):
                 try:
                     if fmt == "json":
@@ -168,6 +219,8 @@ def run(chk):
                     chk.fail(sig(f"{fmt}-reader", d),
                              f"stripped {fmt} reader ({'failsafe' if failsafe else 'strict'}) on a "
                              f"{'stripped' if st else 'full'} document: {d}", {"format": fmt, "document": text[:4000]})
+            if i % 2 == 1:
+                full_read()
     if gen_ok and enc_terms:
         bad, errs = common.run_mismatch_shards("C18enc", PRELUDE, enc_terms, "(check_enc json_tables)", shard=10, jobs=16)
         n1 = common.run_mismatch_shards.evaluated
